@@ -264,9 +264,12 @@ def mk_union(has_none, members):
 
 
 def push_annot(v, m):
+    """m: tuple of metadata; Annotated distributes over unions and nested Annotated merge (representation)"""
     if v[0] == "union":
-        return mk_union(v[1] and False, [push_annot(x, m) for x in v[2]] + ([("annot", ("none",), m)] if v[1] else []))
-    return ("annot", v, m)
+        return mk_union(False, [push_annot(x, m) for x in v[2]] + ([("annot", ("none",), tuple(sorted(set(m))))] if v[1] else []))
+    if v[0] == "annot":
+        return ("annot", v[1], tuple(sorted(set(v[2]) | set(m))))
+    return ("annot", v, tuple(sorted(set(m))))
 
 
 def contains(c, tag):
@@ -309,7 +312,7 @@ def decode_model1(t):
     if k == "TCall":
         return ("call", tuple(decode_model1(x) for x in t[1]), decode_model1(t[2]))
     if k == "TAnnot":
-        return push_annot(decode_model1(t[1]), t[2])
+        return push_annot(decode_model1(t[1]), (t[2],))
     raise ValueError(t)
 
 
@@ -338,8 +341,8 @@ def encode_value(v):
     if isinstance(v, AnnotatedValue):
         inner = encode_value(v.value)
         ms = [m for m in v.metadata]
-        if len(ms) == 1 and isinstance(ms[0], KnownValue) and type(ms[0].val) is int:
-            return push_annot(inner, ms[0].val)
+        if ms and all(isinstance(m, KnownValue) and type(m.val) is int for m in ms):
+            return push_annot(inner, tuple(m.val for m in ms))
         return ("other", "annotated:" + str(v)[:60])
     if isinstance(v, SequenceValue):
         if v.typ is tuple:
@@ -564,6 +567,8 @@ def encode_sig(sig):
 
 def norm_param_type(kind, t):
     """the representation differences named in DefSig.norm_sparam / def_param"""
+    if t == ("err",):
+        t = ("any",)  # the diagnostic is not part of the signature: the parameter type is Any[error]
     if t[0] == "union" and any(m == ("any",) for m in t[2]):
         t = ("any",)  # Any | default
     if t == ("any",):
@@ -595,7 +600,10 @@ def impl_signatures(headers_src):
     for j in range(len(headers_src)):
         v = vals.get(j)
         d = encode_sig(v.signature) if isinstance(v, CallableValue) else None
-        r = encode_sig(checker.arg_spec_cache.get_argspec(getattr(mod, f"m{j}")))
+        try:
+            r = encode_sig(checker.arg_spec_cache.get_argspec(getattr(mod, f"m{j}")))
+        except Exception as ex:
+            r = "crash:" + type(ex).__name__
         out.append({"def": d, "rt": r})
     return out
 
@@ -680,7 +688,8 @@ def model_sigs(headers):
     out = []
     for d, r, (rd, rr) in vals:
         dec = lambda l: [(ALLNAMES[n - 1], str(k), bool(df), norm_param_type(str(k), decode_model(t))) for (n, k, (df, t)) in l]
-        out.append({"def": (dec(d), decode_model(rd)), "rt": (dec(r), decode_model(rr))})
+        ne = lambda t: ("any",) if t == ("err",) else t
+        out.append({"def": (dec(d), ne(decode_model(rd))), "rt": (dec(r), ne(decode_model(rr)))})
     return out
 
 
@@ -715,7 +724,7 @@ def run(tier: str, replay: str | None = None):
     findings_text = {f["id"]: f["what"] for f in kf["findings"]}
     quick = tier == "quick"
 
-    exprs, headers = [], []
+    exprs, headers, pre_rendered = [], [], []
     if replay:
         r = json.loads(Path(replay).read_text())
         inp = r.get("input", {})
@@ -731,7 +740,22 @@ def run(tier: str, replay: str | None = None):
             e = gen_expr(rng, rng.choice([1, 2, 2, 3, 3, 4]))
             if evaluable(e):
                 exprs.append(e)
-        headers = [gen_header(rng) for _ in range(160 if quick else 1500)]
+        ns0 = {}
+        exec(PRELUDE, ns0)
+        hr = random.Random(lib.seed() * 17 + 3)
+        want = 160 if quick else 1500
+        pre_rendered = []
+        while len(headers) < want:
+            h = gen_header(rng)
+            hs = render_header(h, hr)
+            try:  # the def statement must execute: typing rejects some nestings (Final inside Tuple[...], ...)
+                with warnings.catch_warnings():
+                    warnings.simplefilter("ignore")
+                    exec(compile(f"def _probe({hs[0]}){hs[1]}: pass", "<probe>", "exec", dont_inherit=True), dict(ns0))
+            except Exception:
+                continue
+            headers.append(h)
+            pre_rendered.append(hs)
 
     hist = {"expr_depth": {}, "constructors": {}, "route_verdict": {}, "guard": {}, "sig_params": {}, "sig_verdict": {}, "call_verdict": {}}
 
@@ -788,7 +812,7 @@ def run(tier: str, replay: str | None = None):
                 corr.append(({"expr": jsonable(e), "source": src}, {k: jsonable(vals[k]) for k in bad}, {k: jsonable(m[k]) for k in bad},
                              f"Routes.route_{bad[0]} vs " + {"ast": "type_from_ast", "str": "type_from_runtime(str)", "rt": "type_from_runtime(eval(E))", "vis": "value_of_annotation", "visstr": "value_of_annotation (string)"}[bad[0]]))
     # ------------------------------------------------------------------ signatures
-    hsrc = [render_header(h, rrng) for h in headers]
+    hsrc = pre_rendered if not replay else [render_header(h, rrng) for h in headers]
     sigs = impl_signatures(hsrc) if headers else []
     msigs = None
     if model_ok and headers:
@@ -800,6 +824,15 @@ def run(tier: str, replay: str | None = None):
         ps = [p for p in h[0] if p is not None]
         bump("sig_params", len(ps))
         src = f"def f({hs[0]}){hs[1]}"
+        if isinstance(s["rt"], str):
+            star = any("has_star_unpack" in guard_clauses(p[3]) for p in ps if p[3] is not None) or (h[1] is not None and "has_star_unpack" in guard_clauses(h[1]))
+            if star and "C13-star-unpack-three-ways" in findings_text:
+                bump("sig_verdict", "known-finding")
+                rep.known("C13-star-unpack-three-ways", findings_text["C13-star-unpack-three-ways"])
+            else:
+                bump("sig_verdict", "crash")
+                failing.append(({"header": jsonable(h), "source": src}, {"from_runtime": s["rt"]}, "ArgSpecCache.get_argspec raised"))
+            continue
         if s["def"] is None or s["rt"] is None or has_other(s["def"]) or has_other(s["rt"]):
             bump("sig_verdict", "out-of-fragment")
             continue
